@@ -78,8 +78,8 @@ func runC01(c *Ctx) error {
 			relKinds[strings.SplitN(x, ":", 2)[0]] = true
 		}
 		c.Out.Emit(&lib.Case{Class: "pair/" + comp.String(), Nontrivial: len(rel) >= 2 || (len(rel) == 1 && rel[0] != "identical"),
-			Input:  map[string]interface{}{"old": old.Summary(), "new": nw.Summary(), "relations": rel, "compression": comp.String(), "subseed": i},
-			Obs:    obs, Oracle: oracle})
+			Input: map[string]interface{}{"old": old.Summary(), "new": nw.Summary(), "relations": rel, "compression": comp.String(), "subseed": i},
+			Obs:   obs, Oracle: oracle})
 		removeAll(base)
 	}
 	return nil
